@@ -2,7 +2,7 @@
 # mirrors the master contract files into /repo (comment-only, //go:build verif) and commits them there
 set -e
 cd /verif/contracts/repo
-find . -name zz_contracts_verif.go | while read f; do
+find . -name "zz_*_verif.go" | while read f; do
   mkdir -p "/repo/$(dirname "$f")"; cp "$f" "/repo/$f"; git -C /repo add "$f"
 done
 if ! git -C /repo diff --cached --quiet; then
